@@ -139,7 +139,7 @@ class HdrGen:
             # a sane application keeps within the limit the peer announced
             def size(l):
                 return sum(len(h[0]) + len(h[1]) + 32 for h in l) + 64
-            while size(hl) > self.limit:
+            while hl and size(hl) > self.limit:
                 big = max(range(len(hl)), key=lambda i: len(hl[i][1]))
                 if hl[big][0].startswith(':'):
                     break
@@ -340,6 +340,7 @@ class Gen:
         cfg['swarm']['adv_dir'] = self.adv_dir
         cfg['swarm']['silent'] = self.silent
         self.nohead = set()        # (ep, sid): messages that must not carry a body
+        self.lie_streams = set()   # (ep, sid): the application deliberately breaks content-length / no-content rules (C16)
 
     # -- plumbing ----------------------------------------------------------
     def ex(self, ev):
@@ -516,8 +517,9 @@ class Gen:
         es = rng.random() < 0.3
         body_len = None
         method = None
-        if rng.random() < self.P['cl']:
-            body_len = 0 if es else rng.choice([0, 1, 10, 100])
+        lie = rng.random() < self.P.get('cl_lie', 0)
+        if rng.random() < self.P['cl'] or lie:
+            body_len = 0 if (es and not lie) else rng.choice([0, 1, 10, 100])
         hs = self.hg[ep].request(self._max_frame(trk), method=method, body_len=body_len)
         if rng.random() < 0.15:
             kw['pw'] = rng.choice([1, 16, 256, 17, 255])
@@ -528,7 +530,9 @@ class Gen:
         elif rng.random() < 0.05:
             kw['pd'] = rng.choice([0, 1, 5])
         s = self.call(ep, 'send_headers', sid=sid, headers=hs, es=es, **kw)
-        if s is not None and s.ok and body_len is not None:
+        if lie:
+            self.lie_streams.add((ep, sid))
+        elif s is not None and s.ok and body_len is not None:
             self.cl_left[(ep, sid)] = body_len
 
     def _op_respond(self, ep, e, trk, live):
@@ -548,13 +552,16 @@ class Gen:
         body_len = None
         status = None
         head = (st.req_method == b'HEAD')
+        lie = rng.random() < self.P.get('cl_lie', 0)
         if head or rng.random() < 0.15:
             status = rng.choice(['204', '304']) if not head else None
-        if rng.random() < self.P['cl'] and not head and status is None:
-            body_len = 0 if es else rng.choice([0, 1, 10, 100])
+        if (rng.random() < self.P['cl'] and not head and status is None) or lie:
+            body_len = 0 if (es and not lie) else rng.choice([0, 1, 10, 100])
         hs = self.hg[ep].response(max_frame=self._max_frame(trk), status=status, body_len=body_len)
         s = self.call(ep, 'send_headers', sid=st.sid, headers=hs, es=es)
-        if s is not None and s.ok:
+        if lie:
+            self.lie_streams.add((ep, st.sid))
+        elif s is not None and s.ok:
             if body_len is not None:
                 self.cl_left[(ep, st.sid)] = body_len
             if head or status is not None:
@@ -568,7 +575,8 @@ class Gen:
         if not cands:
             return
         st = rng.choice(cands)
-        hs = self.hg[ep].response(info=True, max_frame=self._max_frame(trk))
+        bl = rng.choice([0, 5, 100]) if rng.random() < self.P.get('cl_lie', 0) else None
+        hs = self.hg[ep].response(info=True, max_frame=self._max_frame(trk), body_len=bl)
         self.call(ep, 'send_headers', sid=st.sid, headers=hs)
 
     def _sendable(self, trk, live):
@@ -581,7 +589,7 @@ class Gen:
         if not cands:
             return
         st = rng.choice(cands)
-        if (ep, st.sid) in self.nohead or self._no_body(trk, st):
+        if ((ep, st.sid) in self.nohead or self._no_body(trk, st)) and (ep, st.sid) not in self.lie_streams:
             return self._op_end(ep, e, trk, live, st)
         room = min(trk.conn_send, st.send_win, self._max_frame(trk))
         pad = None
